@@ -400,17 +400,18 @@ fn generate(tier: Tier, rng: &mut Rng, em: &mut Emit) {
                     4 => "e".to_string(),
                     _ => format!("c{}", rng.below(1 << k)),
                 };
-                // the backward solver has no step budget: only lawful orders there
-                let c = if fwd { *rng.pick(&["s", "n", "z", "g"]) } else { *rng.pick(&["s", "n"]) };
+                // unlawful orders run the backward solver into its (default) step budget: rarely
+                let c = if fwd || rng.chance(1, 40) { *rng.pick(&["s", "n", "z", "g"]) } else { *rng.pick(&["s", "n"]) };
                 (j, c)
             }
         };
         let lub = (join == "u" && cmp == "s") || (join == "m" && cmp == "n");
         let mono = fam == "monogk" || fam == "mononum";
-        // Without a budget `force` is only run on monotone analyses: with `force` the stored state is
-        // join(new, old), which need not equal the recomputed one, so a non-monotone analysis on a cyclic CFG
-        // is re-stored and re-queued for ever (the forward solver ends in FixedPointMaxSteps instead).
-        let force = if !fwd && !mono { false } else { force };
+        // With `force` the stored state is join(new, old), which need not equal the recomputed one, so a
+        // non-monotone analysis on a cyclic CFG is re-stored and re-queued until the step budget is exhausted.
+        // The backward solver only has the default budget (250000; before the fix: none, it ran for ever), so
+        // such cases are generated rarely there.
+        let force = if !fwd && !mono { rng.chance(1, 60) } else { force };
         let _ = lub;
         let risky = fwd && ((force && !mono) || cmp == "z" || cmp == "g");
         let max: usize = if risky {
@@ -473,7 +474,7 @@ fn generate(tier: Tier, rng: &mut Rng, em: &mut Emit) {
             flags.push('0');
         }
         let budget = if !fwd {
-            "nobudget".to_string()
+            "default".to_string()
         } else if max >= 2000 {
             "big".to_string()
         } else {
